@@ -45,6 +45,7 @@ type loadSpec struct {
 	length      *int
 	bias        int
 	cancelRate  int
+	spare       int
 	timeoutless bool
 }
 
@@ -77,6 +78,9 @@ func (w *World) prepareInputs(n *Node) *loadInputs {
 func (w *World) load(in *loadInputs, sp loadSpec, rcv *Writer) (*ipfslog.IPFSLog, error, *FetchDriver) {
 	var l *ipfslog.IPFSLog
 	var err error
+	if sp.loader == ldEntries {
+		sp.spare = []int{0, 0, 1, 64}[w.R.Choose("caller-slice-spare", 4)]
+	}
 	d := &FetchDriver{R: w.R, St: w.St, Name: w.M.Name, HookBias: sp.bias, CancelRate: sp.cancelRate}
 	ctx, cancel := context.WithCancel(w.ctx)
 	defer cancel()
@@ -90,7 +94,16 @@ func (w *World) load(in *loadInputs, sp loadSpec, rcv *Writer) (*ipfslog.IPFSLog
 		case ldJSON:
 			l, err = ipfslog.NewFromJSON(ctx, w.St, rcv.ID, in.json, w.logOpts(), &entry.FetchOptions{Concurrency: sp.conc, Length: sp.length})
 		case ldEntries:
-			l, err = ipfslog.NewFromEntry(ctx, w.St, rcv.ID, append([]iface.IPFSLogEntry(nil), in.heads...), w.logOpts(), &entry.FetchOptions{Concurrency: sp.conc, Length: sp.length})
+			// the caller's slice may have spare capacity (built with make/append): the library must neither
+			// write into that capacity in a way that disturbs the result nor reorder what the caller passed
+			src := make([]iface.IPFSLogEntry, len(in.heads), len(in.heads)+sp.spare)
+			copy(src, in.heads)
+			l, err = ipfslog.NewFromEntry(ctx, w.St, rcv.ID, src, w.logOpts(), &entry.FetchOptions{Concurrency: sp.conc, Length: sp.length})
+			for i := range in.heads {
+				if src[i] != in.heads[i] {
+					w.R.Violate(w.P.Prop+":caller-slice-modified", "NewFromEntry changed element %d of the slice of entries its caller supplied", i)
+				}
+			}
 		case ldHash:
 			l, err = ipfslog.NewFromEntryHash(ctx, w.St, rcv.ID, in.hash, w.logOpts(), &ipfslog.FetchOptions{Concurrency: sp.conc, Length: sp.length})
 		}
@@ -139,9 +152,12 @@ func RunC09(r *Run) {
 	p.Weights[opPublish] = 12
 	p.Weights[opByz], p.Weights[opRefused], p.Weights[opAlgebra], p.Weights[opSpecial] = 0, 0, 0, 0
 	w := BuildWorld(r, p)
-	nscen := 2 + r.Choose("nscen", 3)
-	for s := 0; s < nscen; s++ {
+	for s := 0; s < 5; s++ {
 		r.T.Mark()
+		// the tape decides after each scenario whether another follows (0 = stop; an exhausted tape stops)
+		if s > 0 && r.Choose("another-scenario", 3) == 0 {
+			break
+		}
 		n := w.pickSource("src")
 		if n == nil {
 			break
@@ -228,9 +244,12 @@ func (w *World) expectedLimited(set map[string]bool, supplied []string, n int) (
 
 func RunC10(r *Run) {
 	w := BuildWorld(r, sourceProfile("C10"))
-	nscen := 2 + r.Choose("nscen", 3)
-	for s := 0; s < nscen; s++ {
+	for s := 0; s < 5; s++ {
 		r.T.Mark()
+		// the tape decides after each scenario whether another follows (0 = stop; an exhausted tape stops)
+		if s > 0 && r.Choose("another-scenario", 3) == 0 {
+			break
+		}
 		n := w.pickSource("src")
 		if n == nil {
 			break
@@ -353,9 +372,12 @@ var garbageCBOR = []byte{0xa1, 0x61, 0x76, 0x61, 0x78} // {"v":"x"}: valid dag-c
 
 func RunC11(r *Run) {
 	w := BuildWorld(r, sourceProfile("C11"))
-	nscen := 2 + r.Choose("nscen", 3)
-	for s := 0; s < nscen; s++ {
+	for s := 0; s < 5; s++ {
 		r.T.Mark()
+		// the tape decides after each scenario whether another follows (0 = stop; an exhausted tape stops)
+		if s > 0 && r.Choose("another-scenario", 3) == 0 {
+			break
+		}
 		n := w.pickSource("src")
 		if n == nil {
 			break
